@@ -2,10 +2,15 @@
 The built-in filters, tests and functions of the whole-engine model, INSIDE Lean (the driver
 Driver/Pipeline.lean runs exactly these): the dispatch of p2_vm's Driver/Vm.lean over the models
 of C17 (Model/Builtins.lean: `filterTable`, `testTable`, `functionTable`) with the collection
-filters `length reverse first last nth join keys values pairs split` and `safe` / `str` written
-out (Model/CollFilters.lean cannot be imported next to Model/EvalPrims.lean); `sort`, `unique`,
-`group_by`, Unicode case mapping of non-ASCII text, float parsing (`float`, `int` of a text with a
-`.`) answer `unmodelled`.  A receiver whose scalar payload is outside the range of its kind
+filters of C16 (Model/CollFilters.lean: `length reverse first last nth join keys values pairs split
+sort unique group_by`), the `containing` test on arrays and on maps with a non-text pattern
+(Model/Lookup.lean, C15: `Value.isContaining`) and `safe` / `str` written out.  The hasher of the
+C15 / C16 models is the constant one (`hasher`): `C15` proves that no lookup depends on it.
+Unicode case mapping (`str::to_uppercase`, `str::to_lowercase`: std, trusted) is modelled on ASCII,
+Latin-1 and a few blocks without cased letters (`upperCharU`, `lowerCharU`; every code point of
+that domain is compared with the real engine by cpipe's `case.*` stream); `upper` / `lower` of any
+other text, `capitalize` / `title` of non-ASCII text and float parsing (`float`, `int` of a text
+with a `.`) answer `unmodelled`.  A receiver whose scalar payload is outside the range of its kind
 (`Value.scalarWF`: no Rust `Value` can be that) answers `unmodelled` too: it is the hypothesis of
 `C17.builtins_never_panic`.
 
@@ -18,6 +23,7 @@ theirs (they are total functions).
 import TeraModel.Model.Vm
 import TeraModel.Model.Builtins
 import TeraModel.Model.Pipeline
+import TeraModel.Model.CollFilters
 import TeraModel.Generated.Builtins
 namespace Tera.Pipeline.BuiltinsM
 open Tera Tera.Vm
@@ -25,40 +31,10 @@ open Tera Tera.Vm
 instance (v : Value) : Decidable v.scalarWF := by
   cases v <;> simp only [Value.scalarWF] <;> infer_instance
 
-/-! ### collection filters (filters.rs; the models of C16 live in Model/CollFilters.lean, which
-cannot be imported next to Model/EvalPrims.lean: both define `Value.asKey`) -/
-namespace Coll
-def first (val : List Value) : Value := val.head?.getD .none
-def last (val : List Value) : Value := val.getLast?.getD .none
-def nth (val : List Value) (n : Nat) : Value := (val[n]?).getD .none
-def len : Value → Option Nat
-  | .map m => some m.length | .arr xs => some xs.length | .bytes b => some b.length
-  | .str _ s => some s.length | _ => none
-def reverse : Value → Option Value
-  | .arr xs => some (.arr xs.reverse)
-  | .bytes b => some (.arr (b.reverse.map fun n => .u64 n))
-  | .str _ s => some (.str false s.reverse)
-  | _ => none
-def keys (m : List (Key × Value)) : List Value := (sortEntries m).map fun e => keyToValue e.1
-def values (m : List (Key × Value)) : List Value := (sortEntries m).map fun e => e.2
-def pairs (m : List (Key × Value)) : List Value := (sortEntries m).map fun e => .arr [keyToValue e.1, e.2]
-def joinStrs (sep : List Char) : List (List Char) → List Char
-  | [] => []
-  | [s] => s
-  | s :: rest => s ++ sep ++ joinStrs sep rest
-def join (fmt : Value → List Char) (val : List Value) (sep : List Char) : List Char :=
-  joinStrs sep (val.map fmt)
-def splitGo (pat : List Char) : List Char → List Char → Nat → List (List Char)
-  | [], acc, _ => [acc.reverse]
-  | _ :: cs, acc, skip + 1 => splitGo pat cs acc skip
-  | c :: cs, acc, 0 =>
-    if pat.isPrefixOf (c :: cs) then acc.reverse :: splitGo pat cs [] (pat.length - 1)
-    else splitGo pat cs (c :: acc) 0
-def splitStr (s pat : List Char) : List (List Char) :=
-  if pat.isEmpty then [] :: (s.map fun c => [c]) ++ [[]]
-  else splitGo pat s [] 0
-def split (s pat : List Char) : List Value := (splitStr s pat).map fun p => .str false p
-end Coll
+/-- The hasher handed to the map lookups of C15 / C16 (`Map.hashGet`): every key in one bucket.
+`C15` (`Map.hashGet_eq_get`) proves that the answer of a lookup is the same for EVERY hasher, so
+this choice is no assumption about the real one. -/
+def hasher : List HashTok → Nat := fun _ => 0
 
 /-! ### built-ins -/
 open Tera.Args Tera.Builtins in
@@ -74,7 +50,52 @@ def ofOutcome : Builtins.Outcome → CallRes
   | .unmodelled => .unmodelled
 
 def isAsciiStr (s : List Char) : Bool := s.all fun c => c.toNat < 128
-def caseFilters : List String := ["upper", "lower", "capitalize", "title"]
+def caseFilters : List String := ["capitalize", "title"]
+
+/-! ### Unicode case mapping (std: `char::to_uppercase` / `char::to_lowercase`, the tables of
+UnicodeData.txt and SpecialCasing.txt) on a small domain; `none` = outside the domain -/
+
+/-- blocks in which no code point has a case mapping: General Punctuation, Currency Symbols,
+CJK Symbols and Punctuation, Hiragana, Katakana, CJK Unified Ideographs, Specials (U+FFFD, what
+a lossy decoding of bytes prints), and the pictograph / emoji blocks U+1F300..U+1FAFF -/
+def caselessBlock (n : Nat) : Bool :=
+  (0x2000 ≤ n && n ≤ 0x206F) || (0x20A0 ≤ n && n ≤ 0x20CF) || (0x3000 ≤ n && n ≤ 0x30FF) ||
+  (0x4E00 ≤ n && n ≤ 0x9FFF) || (0xFFF0 ≤ n && n ≤ 0xFFFF) || (0x1F300 ≤ n && n ≤ 0x1FAFF)
+
+/-- `char::to_uppercase` -/
+def upperCharU (c : Char) : Option (List Char) :=
+  let n := c.toNat
+  if n < 0x80 then some [c.toUpper]
+  else if n < 0x100 then
+    if n = 0xB5 then some [Char.ofNat 0x39C]                      -- MICRO SIGN -> GREEK CAPITAL MU
+    else if n = 0xDF then some ['S', 'S']                          -- SHARP S (SpecialCasing)
+    else if n = 0xFF then some [Char.ofNat 0x178]                  -- y WITH DIAERESIS
+    else if 0xE0 ≤ n && n ≠ 0xF7 then some [Char.ofNat (n - 0x20)] -- a-grave .. thorn, not DIVISION SIGN
+    else some [c]
+  else if caselessBlock n then some [c]
+  else none
+
+/-- `char::to_lowercase` -/
+def lowerCharU (c : Char) : Option (List Char) :=
+  let n := c.toNat
+  if n < 0x80 then some [c.toLower]
+  else if n < 0x100 then
+    if 0xC0 ≤ n && n ≤ 0xDE && n ≠ 0xD7 then some [Char.ofNat (n + 0x20)]  -- A-grave .. THORN, not MULTIPLICATION SIGN
+    else some [c]
+  else if caselessBlock n then some [c]
+  else none
+
+/-- is every character of the text in the domain of the two tables -/
+def caseModelled (s : List Char) : Bool := s.all fun c => (upperCharU c).isSome
+
+/-- `str::to_uppercase` / `str::to_lowercase` are the character mappings concatenated (the one
+context-sensitive rule of std, the final sigma, concerns U+03A3 only: outside the domain) -/
+def caseParams : Builtins.Params where
+  upperChar c := (upperCharU c).getD [c]
+  lowerChar c := (lowerCharU c).getD [c]
+  upperStr s := s.flatMap fun c => (upperCharU c).getD [c]
+  lowerStr s := s.flatMap fun c => (lowerCharU c).getD [c]
+  parseF64 _ := none
 
 
 
@@ -82,7 +103,7 @@ open Tera.Args Tera.Builtins Coll in
 /-- `tera.filters[name].call(v, kw, state)` -/
 def callFilterM (fmtF64 : F64 → List Char) (name : String) (v : Value) (kw : List (String × Value)) : CallRes :=
   let fmtV (v : Value) : List Char := v.format fmtF64
-  match lookup (filterTable asciiParams) name with
+  match lookup (filterTable caseParams) name with
   | none => .unmodelled
   | some b =>
     if ¬ v.scalarWF then .unmodelled else
@@ -99,7 +120,7 @@ def callFilterM (fmtF64 : F64 → List Char) (name : String) (v : Value) (kw : L
       | "first", .arr xs => .ok (first xs)
       | "last", .arr xs => .ok (last xs)
       | "nth", .arr xs =>
-        match kwMust (intFromValue 0 USIZE_MAX) kw "n" with
+        match kwMust (intFromValue 0 Args.USIZE_MAX) kw "n" with
         | .ok n => .ok (nth xs n.toNat)
         | .error e => ofBErr e
       | "join", .arr xs =>
@@ -113,25 +134,60 @@ def callFilterM (fmtF64 : F64 → List Char) (name : String) (v : Value) (kw : L
         match kwMust strFromValue kw "pat" with
         | .ok pat => .ok (.arr (split s pat))
         | .error e => ofBErr e
-      | "unique", .arr _ => .unmodelled
-      | "sort", .arr _ => .unmodelled
-      | "group_by", .arr _ => .unmodelled
+      | "unique", .arr xs => .ok (.arr (unique xs))
+      -- `sort` and `group_by` return before looking at their arguments when the array is empty
+      | "sort", .arr xs =>
+        if xs.isEmpty then .ok (.arr []) else
+        match strKw "attribute" with
+        | .error e => ofBErr e
+        | .ok attr =>
+          match sort hasher xs attr with
+          | .ok out => .ok (.arr out)
+          | .missingAttr => .err
+          | .notComparable => .err
+      | "group_by", .arr xs =>
+        if xs.isEmpty then .ok (.map []) else
+        match kwMust strFromValue kw "attribute" with
+        | .error e => ofBErr e
+        | .ok attr =>
+          match groupBy hasher xs attr with
+          | .ok g => .ok (.map (g.map fun e => (e.1, .arr e.2)))
+          | .missingAttr => .err
+          | .badKey => .err
       | name, v =>
         let r := b.body v kw
         match v with
         | .str _ s =>
           if caseFilters.contains name && !isAsciiStr s then .unmodelled
+          else if (name == "upper" || name == "lower") && !caseModelled s then .unmodelled
           else if name == "float" then .unmodelled
           else if name == "int" && s.contains '.' then
             (match r with | .err .msg => .unmodelled | o => ofOutcome o)
           else ofOutcome r
         | _ => ofOutcome r
 
-open Tera.Builtins in
+/-- tests.rs `is_containing` where C17's `tContaining` stops (an array receiver, a map receiver
+with a pattern that is not a text): the model of C15 -/
+def containingM (v pat : Value) : CallRes :=
+  match Value.isContaining hasher v pat with
+  | .ok b => .ok (.bool b)
+  | .badPat => .err
+  | .notContainer => .err
+
+open Tera.Args Tera.Builtins in
 def callTestM (name : String) (v : Value) (kw : List (String × Value)) : CallRes :=
   match lookup testTable name with
   | none => .unmodelled
-  | some b => if ¬ v.scalarWF then .unmodelled else ofOutcome (b.apply v kw)
+  | some b =>
+    if ¬ v.scalarWF then .unmodelled else
+    match b.apply v kw with
+    | .unmodelled =>
+      if name == "containing" then
+        match kwMust (fun x => .ok x) kw "pat" with
+        | .ok pat => containingM v pat
+        | .error e => ofBErr e
+      else .unmodelled
+    | o => ofOutcome o
 
 open Tera.Builtins in
 def callFunctionM (name : String) (kw : List (String × Value)) : CallRes :=
